@@ -168,6 +168,9 @@ def rule_position_semantic(src, rep, counts):
             return ("error", str(e))
         if rig.over_reads:
             return ("U3-consumes-nothing-after-the-report", desc, "%d character(s) after the report were consumed" % rig.over_reads)
+        if scr.replies:
+            return ("U1-query-then-read", desc, "the terminal was asked more than once: %d character(s) of a further report (%r) stay unread and will be taken for the "
+                    "answer to the next query" % (len(scr.replies), "".join(scr.replies)))
         if r == ("raise", "OSError"):
             return ("U4-read-errors-are-retried", desc, "OSError from the read escaped")
         if ah and not cb:
@@ -236,6 +239,11 @@ def rule_conservation_semantic(src, rep, counts):
                     for t2 in (rows if rep.tier == "thorough" else [rows[(t1 + k + n) % h], rows[(t1 * 2 + 1) % h]]):
                         for nested in ((None, 1, 4) if rep.tier == "thorough" else (None, 1 + (t1 + t2) % 4)):
                             jobs.append((h, k, n, cr, (t1, t2), nested))
+                        if (t1 + t2 + k) % 2 == 0 or rep.tier == "thorough":
+                            jobs.append((h, k, n, cr, (t1, t2), "position query first"))
+                if n <= h:
+                    for t1 in (h, h + 1, 0):
+                        jobs.append((h, k, n, cr, (t1, (t1 + 2) % (h + 2)), "terminal made 2 rows taller"))
 
     def one(job):
         h, k, n, cr, targets, nested = job
@@ -255,18 +263,30 @@ def rule_conservation_semantic(src, rep, counts):
             desc = ["%d-row terminal, window entered on row %d, render %d row(s) cursor_pos=(%d, 0) leaves the cursor on row %d"
                     % (h, k, n, cr, scr.r)]
             win = rig.win
+            special = nested if isinstance(nested, str) else None
+            if special is not None:
+                nested = None
+            if special == "terminal made 2 rows taller":
+                scr.height += 2
+                scr.rows.extend([[termmodel.BLANK] * scr.width for _ in range(2)])
+                desc.append("the terminal is made 2 rows taller")
             for qi, t in enumerate(targets):
                 m = t - scr.r
                 scr.r = t
-                tur0 = win.fields.get("top_usable_row")
+                if special == "position query first":
+                    rp = rig.call("get_cursor_position")
+                    if rp[0] != "ok":
+                        return ("U5-movement-accounted-exactly-once", "; ".join(desc), "a stand-alone get_cursor_position() gave %s" % (rp,))
+                    desc.append("get_cursor_position() is called on its own (it answers %s)" % (rp[1],))
+                tur0 = it.folder.obj_attr(win, "top_usable_row")
                 inner = []
                 if nested is not None and qi == 0:
                     rig.reads = 0
 
                     def hook(rg, inner=inner):
                         if rg.reads == nested and not inner:
-                            t0 = rg.win.fields.get("top_usable_row")
-                            inner.append((rg.it.callm(rg.win, "get_cursor_vertical_diff"), rg.win.fields.get("top_usable_row") - t0))
+                            t0 = rg.it.folder.obj_attr(win, "top_usable_row")
+                            inner.append((rg.it.callm(rg.win, "get_cursor_vertical_diff"), rg.it.folder.obj_attr(win, "top_usable_row") - t0))
                     rig.on_read = hook
                 else:
                     rig.on_read = None
@@ -280,7 +300,7 @@ def rule_conservation_semantic(src, rep, counts):
                 if inner and inner[0] != (("ok", 0), 0):
                     return ("U5-nested-call-defers", d, "the nested call gave %s and changed top_usable_row by %s; it must return 0 and leave the "
                             "accounting to the call in progress" % inner[0])
-                tur1 = win.fields.get("top_usable_row")
+                tur1 = it.folder.obj_attr(win, "top_usable_row")
                 if (tur1 - tur0) + r[1] != m:
                     return ("U5-movement-accounted-exactly-once", d, "top_usable_row went %d -> %d and %d was returned: %+d accounted, the cursor moved %+d"
                             % (tur0, tur1, r[1], (tur1 - tur0) + r[1], m))
